@@ -6,7 +6,7 @@ import (
 )
 
 var zzHarnesses = map[string]func(){"H17SplitJoin": H17SplitJoin, "H17Index": H17Index, "H17Slice": H17Slice,
-	"H17Map": H17Map, "H17Filter": H17Filter, "H17Reduce": H17Reduce, "H17Range": H17Range, "H17For": H17For, "H17Concat": H17Concat, "H17Nested": H17Nested}
+	"H17Map": H17Map, "H17Filter": H17Filter, "H17Reduce": H17Reduce, "H17Range": H17Range, "H17For": H17For, "H17Concat": H17Concat, "H17Nested": H17Nested, "H17Par": H17Par}
 
 const zzSep = "\x00"
 
@@ -460,5 +460,46 @@ func H17Nested() {
 		zz.Assert(after[i] == l[i], "nested array helper: the inner helper clobbered the outer element binding")
 		zz.Assert(keys[i] == key, "nested array helper: named key no longer resolves in the enclosing match")
 	}
+	zz.Reached()
+}
+
+// H17Par: one compiled array helper evaluated by two goroutines at the same
+// time on different matches (what two extractor workers do): each gets the
+// result of its own match, and the shared sub-context pool is used without a
+// data race - under every interleaving within the bound (scheduler and
+// happens-before monitor of the engine; native witness: go test -race).
+func H17Par() {
+	sub := func(c KeyBuilderContext) string {
+		e := c.GetMatch(0)
+		zz.Yield() // evaluating the sub-expression takes time
+		return e + c.GetKey("k")
+	}
+	var st KeyBuilderStage
+	switch zz.Choice(3) {
+	case 0:
+		st = zzMust(kfArrayMap([]KeyBuilderStage{zzArg(0), sub}))
+	case 1:
+		st = zzMust(kfArrayFilter([]KeyBuilderStage{zzArg(0), sub}))
+	default:
+		st = zzMust(kfArrayReduce([]KeyBuilderStage{zzArg(0), func(c KeyBuilderContext) string {
+			zz.Yield()
+			return c.GetMatch(0) + c.GetMatch(1) + c.GetKey("k")
+		}, zzLit("i")}))
+	}
+	ctxs := []*zzCtx{{vals: []string{"a" + zzSep + "b"}, key: "1"}, {vals: []string{"c" + zzSep + "d"}, key: "2"}}
+	want := []string{st(ctxs[0]), st(ctxs[1])} // sequential reference
+	zz.Concurrent(1, zzParPreempt, 0)
+	zz.RaceMonitor(true)
+	got := make([]string, 2)
+	done := make(chan bool)
+	for i := 0; i < 2; i++ {
+		go func(i int) {
+			got[i] = st(ctxs[i])
+			done <- true
+		}(i)
+	}
+	<-done
+	<-done
+	zz.Assert(got[0] == want[0] && got[1] == want[1], "an array helper evaluated concurrently returns another match's result")
 	zz.Reached()
 }
